@@ -1,16 +1,132 @@
 (* C10 — Pairing follows user intent.  Statements only; every proof is `exact <lemma>`.
-   Model: coq/theories/HubModel.v (hstep: one hub entry point or one internal step of a
-   delayed dial per label; hrun: unbounded label lists). *)
+   Model: coq/theories/HubModel.v — hstep C h l: one hub entry point, or one internal step
+   of a delayed dial (LFire: the pending dial's preparation up to the websocket Dial;
+   LDialOk / LDialFail: the dial in flight returns), per label; hrun: unbounded label
+   lists.  C : cfg holds the universe of SKIs, the SKI order and the table regenerated
+   from hub/*.go (which places consult the shut-down flag); theorems hold for every C
+   unless they name the table. *)
 From Ship Require Import Base HubModel HubModelProofs.
 From ShipGen Require Import StateTable HubTable.
 
-(* (a) in every hub state, for every configuration: a websocket dial to k starts only in
-   the step "the pending dial of k fires", and only if at that moment k is trusted or its
-   pairing state is Queued (and k has no registered connection) *)
+(* (a) in every hub state: a websocket dial to k starts only in the step "the pending dial
+   of k fires", and only if at that moment k is trusted or its pairing state is Queued,
+   k has no registered connection and (if the preparation consults the flag) the hub is
+   not shut down *)
 Theorem C10_dial_only_trusted_or_queued :
   forall (C : cfg) (h : hub) (l : label) (k : N),
     In k (dials_of (snd (hstep C h l))) ->
-    l = LFire k /\ may_dial (get h k) = true /\ s_reg (get h k) = None
+    l = LFire k /\ (s_trusted (get h k) || queued (get h k)) = true /\ s_reg (get h k) = None
     /\ (c_gprep C = true -> h_down h = false).
 Proof. exact dial_step. Qed.
 Print Assumptions C10_dial_only_trusted_or_queued.
+
+(* (a) "trusted or queued" arises only from RegisterRemoteSKI(k), from a hello-ok report
+   for k, or from a report of a state the hub maps to Queued (only CmiStateInitStart, see
+   C10_only_initial_state_maps_to_queued; connections report state changes only) — never
+   from an mDNS report, an inbound request, a close report or any other label *)
+Theorem C10_trust_and_queue_origin :
+  forall (C : cfg) (h : hub) (l : label) (k : N),
+    may_dial (get (fst (hstep C h l)) k) = true -> may_dial (get h k) = false ->
+    regrants l k = true.
+Proof. exact grant_origin. Qed.
+Print Assumptions C10_trust_and_queue_origin.
+
+Theorem C10_only_initial_state_maps_to_queued :
+  filter (fun st => N.eqb (pair_state_of st) ConnectionStateQueued) (map N.of_nat (seq 0 64)) = [CmiStateInitStart].
+Proof. exact only_initstart_maps_to_queued. Qed.
+Print Assumptions C10_only_initial_state_maps_to_queued.
+
+(* (a), histories: from any state in which k is neither trusted nor queued, over any label
+   list (any mDNS reports, inbound requests, pending dials firing, operations on other
+   SKIs ...) that does not re-grant trust to k, no dial to k ever starts and k stays
+   untrusted and unqueued *)
+Theorem C10_no_dial_without_registration :
+  forall (C : cfg) (k : N) (ls : list label) (h : hub),
+    may_dial (get h k) = false ->
+    (forall l, In l ls -> regrants l k = false) ->
+    ~ In k (dials_of (snd (hrun C h ls))) /\ may_dial (get (fst (hrun C h ls)) k) = false.
+Proof. exact no_grant_no_dial. Qed.
+Print Assumptions C10_no_dial_without_registration.
+
+(* (b) UnregisterRemoteSKI(k), in any state: k is untrusted, its state None, its attempt
+   counter gone, and the registered connection (if any) is told to close with 4500 *)
+Theorem C10_unregister_effect :
+  forall (C : cfg) (h : hub) (k : N),
+    let h' := fst (hstep C h (LUnregister k)) in
+    let o := snd (hstep C h (LUnregister k)) in
+    s_trusted (get h' k) = false /\ s_pst (get h' k) = ConnectionStateNone /\ s_counter (get h' k) = None
+    /\ may_dial (get h' k) = false
+    /\ (forall c, s_reg (get h k) = Some c -> In (OClose c true 4500) o).
+Proof. exact unregister_effect. Qed.
+Print Assumptions C10_unregister_effect.
+
+(* (b) after UnregisterRemoteSKI(k), whatever was pending: every delayed dial to k that
+   fires later is dropped at its checks, no dial to k starts and k stays untrusted, for
+   every continuation without re-registration / hello-ok report for k *)
+Theorem C10_no_dial_after_unregister :
+  forall (C : cfg) (h : hub) (k : N) (ls : list label),
+    (forall l, In l ls -> regrants l k = false) ->
+    let r := hrun C (fst (hstep C h (LUnregister k))) ls in
+    ~ In k (dials_of (snd r)) /\ may_dial (get (fst r) k) = false.
+Proof.
+  intros C h k ls G. apply no_grant_no_dial; [apply unregister_effect|exact G].
+Qed.
+Print Assumptions C10_no_dial_after_unregister.
+
+(* (b) REFUTED in one region (finding client_connection_completed_after_unregister): a dial
+   already in flight when the user unregisters completes afterwards as a client-role
+   connection, is registered, and its hello-ok report makes k trusted again *)
+Theorem C10_unregister_window_refuted :
+  let h := fst (hrun window_cfg (hub0 true) window_run) in
+  s_trusted (get h 0) = true /\ s_reg (get h 0) = Some 1
+  /\ run_window window_cfg ghost0 (hub0 true) window_run = [19]
+  /\ window_free window_cfg (hub0 true) window_run = false.
+Proof. exact window_witness. Qed.
+Print Assumptions C10_unregister_window_refuted.
+
+(* (c) CancelPairingWithSKI(k), in any state: the registered connection (a pending request)
+   gets AbortPendingHandshake, k is untrusted, its state None, its attempt counter gone *)
+Theorem C10_cancel_aborts_and_clears_trust :
+  forall (C : cfg) (h : hub) (k : N),
+    let h' := fst (hstep C h (LCancel k)) in
+    let o := snd (hstep C h (LCancel k)) in
+    s_trusted (get h' k) = false /\ s_pst (get h' k) = ConnectionStateNone /\ s_counter (get h' k) = None
+    /\ may_dial (get h' k) = false
+    /\ (forall c, s_reg (get h k) = Some c -> In (OAbort c) o).
+Proof. exact cancel_effect. Qed.
+Print Assumptions C10_cancel_aborts_and_clears_trust.
+
+(* (d) with the table regenerated from the current source (Shutdown sets a flag, the dial
+   preparation consults it): after Shutdown, in any state and for every continuation —
+   pending dials firing, mDNS reports, registrations, close reports — no dial starts *)
+Theorem C10_no_dial_after_shutdown :
+  forall (u : list N) (lgt : N -> bool) (h : hub) (ls : list label),
+    dials_of (snd (hrun (with_table u lgt) (fst (hstep (with_table u lgt) h LShutdown)) ls)) = [].
+Proof. intros u lgt. exact (no_dial_after_shutdown (with_table u lgt) eq_refl eq_refl). Qed.
+Print Assumptions C10_no_dial_after_shutdown.
+
+(* (d) ... and a shut-down hub neither re-announces nor requests mDNS entries *)
+Theorem C10_no_reannounce_after_shutdown :
+  forall (u : list N) (lgt : N -> bool) (h : hub), h_down h = true -> reannounce (with_table u lgt) h = [].
+Proof. intros u lgt h. exact (reannounce_down (with_table u lgt) h eq_refl). Qed.
+Print Assumptions C10_no_reannounce_after_shutdown.
+
+(* (d) no slack: a hub whose Shutdown sets no flag (the tree before the fix) dials after it *)
+Theorem C10_shutdown_without_flag_refuted :
+  dials_of (snd (hrun noflag_cfg (hub0 true) [LRegister 0; LReport [0]; LShutdown; LFire 0])) = [0].
+Proof. exact shutdown_without_flag_dials. Qed.
+Print Assumptions C10_shutdown_without_flag_refuted.
+
+(* independence: a label that names a SKI leaves every other SKI's record untouched *)
+Theorem C10_operations_on_one_ski_do_not_touch_another :
+  forall (C : cfg) (h : hub) (l : label) (k0 j : N),
+    label_ski l = Some k0 -> j <> k0 -> get (fst (hstep C h l)) j = get h j.
+Proof. exact hstep_other. Qed.
+Print Assumptions C10_operations_on_one_ski_do_not_touch_another.
+
+(* the hypotheses are satisfiable: a registered SKI is dialled, and a pending dial is dropped by unregister *)
+Theorem C10_example_dial_after_registration :
+  dials_of (snd (hrun (with_table [0;1] (fun _ => false)) (hub0 true)
+                 [LReport [0;1]; LRegister 1; LReport [0;1]; LFire 1])) = [1].
+Proof. exact dial_after_registration. Qed.
+Print Assumptions C10_example_dial_after_registration.
